@@ -166,6 +166,8 @@ pub fn ctx_spec() -> CtxSpec {
     spec.fns.push(("m0".into(), FnSpec::Host(vec!["this-value".into()], Body::Const(Value::Int(0)))));
     spec.fns.push(("m1".into(), FnSpec::Host(vec!["this-value".into(), "pos-value".into()], Body::Const(Value::Int(1)))));
     spec.fns.push(("m2".into(), FnSpec::Host(vec!["this-value".into(), "pos-value".into(), "pos-value".into()], Body::Const(Value::Int(2)))));
+    // a receiver parameter combined with the all-arguments extractor (see known finding D27)
+    spec.fns.push(("ta".into(), FnSpec::Host(vec!["this-value".into(), "args".into()], Body::Const(Value::Int(7)))));
     spec
 }
 
@@ -278,6 +280,18 @@ pub fn generate(tier: Tier, rng: &mut Rng) -> Vec<Case> {
         let two = t.has_two_calls();
         push(src, Some((log, v)), usize::MAX, vec![if two { "tree" } else { "tiny" }], &mut out);
     }
+    // This<T> + Arguments: in receiver style the receiver is `this` and the arguments are the
+    // arguments; in global style the first argument is `this` AND part of `Arguments` — the
+    // property allows it to be evaluated once only (known finding D27: it is evaluated twice)
+    let t = |n: i64| format!("(x74 (int {n}))");
+    let ints = |v: &[i64]| v.iter().map(|x| format!("(int {x})")).collect::<Vec<_>>().join(" ");
+    let ta = |this: i64, args: &[i64]| format!("(x7461 (int {this}) (list{}{}))", if args.is_empty() { "" } else { " " }, ints(args));
+    push("t(1).ta(t(2), t(3))".into(), Some((vec![t(1), t(2), t(3), ta(1, &[2, 3])], 7)), usize::MAX, vec!["this-args", "receiver-style"], &mut out);
+    push("t(1).ta()".into(), Some((vec![t(1), ta(1, &[])], 7)), usize::MAX, vec!["this-args", "receiver-style"], &mut out);
+    push("ta(t(1))".into(), Some((vec![t(1), ta(1, &[1])], 7)), usize::MAX, vec!["this-args", "global-style"], &mut out);
+    push("ta(t(1), t(2))".into(), Some((vec![t(1), t(2), ta(1, &[1, 2])], 7)), usize::MAX, vec!["this-args", "global-style"], &mut out);
+    push("ta(t(1), t(2), t(3))".into(), Some((vec![t(1), t(2), t(3), ta(1, &[1, 2, 3])], 7)), usize::MAX, vec!["this-args", "global-style"], &mut out);
+    push("h1(ta(t(1), t(2)))".into(), Some((vec![t(1), t(2), ta(1, &[1, 2]), format!("({} (int 7))", crate::sx::hex(b"h1"))], 1)), usize::MAX, vec!["this-args", "global-style"], &mut out);
     // nested chains: the number of host calls must be linear in the depth (never exponential)
     for depth in [1usize, 2, 3, 5, 8, 13, 21, 30, 40] {
         let mut s = "t(1)".to_string();
